@@ -137,8 +137,11 @@ def reproduced(kind, out, bad):
         return any(v.get('restore_errors') for v in (out.get('versions') or []))
     if kind == 'interrupted-version-listing':
         return any(v.get('differences') or len(set(v.get('listing') or [])) != len(v.get('listing') or []) for v in versions)
-    if kind in ('format', 'metadata-recorded-wrong'):
-        return any(v.get('differences') or v.get('restore_errors') for v in versions) or True
+    if kind == 'format':
+        # decided by an independent native reader of the archive directory (replay/src/formatscan.rs) or by what a restore shows
+        return bool(out.get('format_problems')) or any(v.get('differences') or v.get('restore_errors') for v in versions)
+    if kind == 'metadata-recorded-wrong':
+        return any(v.get('differences') or v.get('restore_errors') for v in versions)
     return False
 
 
@@ -246,6 +249,9 @@ def trace_conformance(sample, prop):
     out, path = runner.replay(sc, prop + '_conformance')
     if out.get('panic'):
         return 'native run panicked (%s)' % path
+    if out.get('format_problems'):
+        # the independent native reader of the archive directory objects to what the real run wrote on a path the model found clean
+        return 'independent format reader: %s (%s)' % (out['format_problems'][:2], path)
     native = normalize_trace([(o[0], o[1]) for o in out.get('ops', []) if o[0] not in ('rewrite', 'follow_up')])
     model = normalize_trace(sample['storage_trace'])
     if sample.get('fired') and sample['fired'][3] in ('stop', 'empty_stop') and len(native) > len(model):
